@@ -77,3 +77,9 @@ Proof. intros H. rewrite <- (firstn_skipn (N.to_nat n) l) in H. apply wf_bytes_a
 
 Lemma In_firstn {A} (x : A) n l : In x (firstn n l) -> In x l.
 Proof. revert l; induction n as [|n IH]; intros [|y l]; simpl; try tauto. intros [H|H]; auto. Qed.
+
+Lemma skipn_skipn_add {A} a b (l : list A) : skipn a (skipn b l) = skipn (b + a) l.
+Proof.
+  revert l. induction b as [|b IH]; intros l; [reflexivity|].
+  destruct l as [|x l]; [rewrite !skipn_nil; reflexivity|]. cbn [skipn plus]. apply IH.
+Qed.
